@@ -240,11 +240,11 @@ def _worker(job):
             ctx._rec("run/the library refuses an input inside the property's domain", "violated", "harness", 0.0,
                      {"why": "%s: %s" % (type(e).__name__, str(e)[:300]), "where": "%s:%s" % (os.path.basename(last.filename), last.lineno)},
                      witness={"exception": repr(e)[:300]})
-        elif in_lib and isinstance(e, (IndexError, RuntimeError, ZeroDivisionError)) and not isinstance(e, alg.Unmodelled):
-            # an operation of the library itself failed (the innermost frame is library code calling into torch / numpy) on
-            # inputs the harness built inside the property's domain.  It could still be an artefact of running on symbolic
-            # values, so it only counts when the replay on the real code with numbers reproduces a failure; otherwise the
-            # configuration is undecided
+        elif in_lib and not isinstance(e, (alg.Unmodelled, alg.FinerExp, MemoryError, RecursionError)):
+            # an operation of the library itself failed (the innermost frame is library code: a call into torch / numpy, an
+            # attribute or key that is not there, a wrong argument order) on inputs the harness built inside the property's
+            # domain.  It could still be an artefact of running on symbolic or ghost values, so it only counts when the
+            # replay on the real code with numbers reproduces a failure; otherwise the configuration is undecided
             ctx._rec("run/an operation of the library fails on an input inside the property's domain", "violated", "harness", 0.0,
                      {"why": "%s: %s" % (type(e).__name__, str(e)[:300]), "where": "%s:%s" % (os.path.basename(last.filename), last.lineno)},
                      witness={"exception": repr(e)[:300]})
